@@ -3,9 +3,9 @@ CONSTANTS
   Producers = {1, 2}
   NPush = 2
   NOps = 2
-  Readers = {}
-  NReads = 0
-  Variant = "nolock_push"
-INVARIANTS MutexOK
+  Readers = {10, 11}
+  NReads = 1
+  Variant = "code"
+INVARIANTS NoRace AnnotOK MutexOK
 PROPERTY Refines
 CHECK_DEADLOCK FALSE
